@@ -48,7 +48,7 @@ import tempfile
 import numpy as np
 from hypothesis import strategies as st
 
-from vlib import Sub, Violation, close, require
+from vlib import Sub, close, require
 from vlib import strat as S
 
 PROPERTY = "C34"
